@@ -125,6 +125,9 @@ type Net struct {
 	// SrvSockoptFail: the TCP-only socket options (keep-alive, no-delay, linger, buffer sizes) fail on the
 	// server's side of every stream connection (a platform or a wrapped connection that refuses them).
 	SrvSockoptFail bool
+	// CloseErr: closing a stream connection reports an error on these roles ("srv", "cli", "" none); the
+	// connection is closed all the same.
+	CloseErr string
 
 	K      *kernel.K
 	Stream StreamLink
@@ -610,8 +613,15 @@ func (c *StreamConn) Close() error {
 		c.tx.q = append(c.tx.q, seg{eof: true})
 		k.At(t, "deliver-eof", c.tx.id, &deliverEv{n: c.n, h: c.tx})
 	}
+	if c.n.CloseErr != "" && c.n.CloseErr == c.Role {
+		k.BumpLocked("fault.conn_close_reports_error")
+		return ErrCloseIO
+	}
 	return nil
 }
+
+// ErrCloseIO is what a close that went wrong underneath reports (the descriptor is gone all the same).
+var ErrCloseIO = errors.New("simnet: close: input/output error")
 
 // CloseWrite ends this side's sending (a FIN): the peer reads EOF after what was
 // written, this side can still read.
